@@ -1,6 +1,7 @@
 """Property -> units / harnesses / stated assumptions.  Units are /verif/units/<name>.vrs."""
 
 UNIT_NOTES = {
+    "rawblock": "C06 RawBlock::new: the receipts closure and the transactions closure lifted (N10-lift, lift_wrap) and proved field by field against the stored TxReceiptED / TxED; alloy consensus types as plain records with alloy's public field names",
     "txstore": "C06/C05 tail of add_tx_to_block's closure (N10-lift): values handed to set_tx_receipt (cumulative gas, first log index, hash, index, nonce, gas limit) and the advance of LastBlockInfo (waiting count, gas, log index); the EVM run before it is dropped (its output and trace are parameters)",
     "rawtx": "C08 what a signed raw transaction turns into: TxInfo::{from_inscription, from_raw_transaction, from_saved_transaction, to_address_optional} and get_info_from_raw_tx on their real bodies (alloy RLP decoding, signature recovery and keccak as uninterpreted functions of their inputs)",
     "codec_trace": "C14 record codec of the recursive TraceED (enc / dec read off the real impls, N37); Vec<TraceED> is an assumed leaf here",
@@ -128,10 +129,10 @@ PROPS["C05"] = {
     "assumptions": ["closure bodies passed to SharedData::write_fn are outside the proof (N10)", "sequential model of SharedData"],
 }
 PROPS["C06"] = {
-    "units": ["dbfacade", "scalars", "engine", "txstore"],
+    "units": ["dbfacade", "scalars", "engine", "txstore", "rawblock"],
     "kani": [],
-    "level_text": "Proof on Brc20ProgDatabase::set_tx_receipt: after Ok the transaction row, the receipt row, the (block,index)->hash row and the inscription->hash row all carry the same hash, block hash, block number and index; set_block_hash: number->hash and hash->number invert each other; LogED::new_vec: log indexes run contiguously from the start index and every log carries its transaction's hash, index, block hash and number; get_block_tx_count = number of (block,index) rows of the block; generate_block on its real body: the block lists exactly the transaction hashes recorded under (block, 0), (block, 1), .. in index order, its count field is their number, it carries the number and hash it was generated for, its parent is the recorded hash of the previous block (zero for block 0) and a missing parent is an error; add_tx_to_block stores transaction, receipt and trace under get_tx_hash(tx, account nonce) (site precondition) and get_tx_hash is the keccak of sender, nonce, target, data (functional postcondition); the tail of add_tx_to_block's closure (lifted, unit txstore): the receipt is stored with the block's running gas total INCLUDING this transaction as cumulative gas and with the block's running log count BEFORE it as first log index, under the hash / index / number / nonce / gas limit of this transaction; afterwards the running totals have advanced by exactly this transaction (one more waiting transaction, gas, logs), and the receipt handed back is the one the store serves; eth_getLogs order (C18).",
-    "level_note": COMMON_TRUST + "Narrow. Rule N29 keeps only the index arguments of TxReceiptED::new / TxED::new (the other arguments are revm/alloy values). NOT covered: bloom and merkle root (dropped from generate_block by N13: uninterpreted libraries), raw block encodings (alloy RLP), the generate_raw_block body.",
+    "level_text": "Proof on Brc20ProgDatabase::set_tx_receipt: after Ok the transaction row, the receipt row, the (block,index)->hash row and the inscription->hash row all carry the same hash, block hash, block number and index; set_block_hash: number->hash and hash->number invert each other; LogED::new_vec: log indexes run contiguously from the start index and every log carries its transaction's hash, index, block hash and number; get_block_tx_count = number of (block,index) rows of the block; generate_block on its real body: the block lists exactly the transaction hashes recorded under (block, 0), (block, 1), .. in index order, its count field is their number, it carries the number and hash it was generated for, its parent is the recorded hash of the previous block (zero for block 0) and a missing parent is an error; add_tx_to_block stores transaction, receipt and trace under get_tx_hash(tx, account nonce) (site precondition) and get_tx_hash is the keccak of sender, nonce, target, data (functional postcondition); the tail of add_tx_to_block's closure (lifted, unit txstore): the receipt is stored with the block's running gas total INCLUDING this transaction as cumulative gas and with the block's running log count BEFORE it as first log index, under the hash / index / number / nonce / gas limit of this transaction; afterwards the running totals have advanced by exactly this transaction (one more waiting transaction, gas, logs), and the receipt handed back is the one the store serves; the two closures of RawBlock::new (lifted, unit rawblock): a raw receipt carries the stored receipt's cumulative gas, status, logs and bloom, a raw transaction the stored nonce, target, value, input, chain id, gas limit and signature; eth_getLogs order (C18).",
+    "level_note": COMMON_TRUST + "Narrow. Rule N29 keeps only the index arguments of TxReceiptED::new / TxED::new (the other arguments are revm/alloy values). NOT covered: bloom and merkle root (dropped from generate_block by N13: uninterpreted libraries), the header literal of RawBlock::new and the RLP encoding itself (alloy), the generate_raw_block body.",
     "assumptions": ["N29: constructors reduced to their index arguments; BlockResponseED::new assumed to store hash / count / number / transactions / parent hash in the fields of that name", "generate_raw_block not under contract", "U128ED compares as its encoding does (Kani u128ed_order)"],
 }
 PROPS["C08"] = {
